@@ -405,9 +405,9 @@ pub fn run_part(ctx: &mut Ctx) {
         let (stream, inv) = (parts.next().unwrap_or(""), parts.next().unwrap_or(""));
         let path = if s.stream { "stream" } else { "writer" };
         let bad = if stream != real {
-            Some((format!("correspondence: encoder-rows/{}/stream", path), format!("image {} of {}: encodeRowsImpl (model) differs from the scanline stream the encoder wrote (filter setting {})", i, s.images.len(), s.images[*i].2)))
+            Some((format!("encoder-rows/{}/stream", path), format!("image {} of {}: encodeRowsImpl (model) differs from the scanline stream the encoder wrote (filter setting {})", i, s.images.len(), s.images[*i].2)))
         } else if inv != "inverse" {
-            Some((format!("correspondence: encoder-rows/{}/model-inverse", path), format!("image {}: decodeRowsImpl does not invert encodeRowsImpl on these rows: `{}`", i, inv)))
+            Some((format!("encoder-rows/{}/model-inverse", path), format!("image {}: decodeRowsImpl does not invert encodeRowsImpl on these rows: `{}`", i, inv)))
         } else {
             None
         };
@@ -434,7 +434,7 @@ pub fn replay_case(ctx: &mut Ctx, case: &J) {
             for (i, a) in answers.iter().enumerate() {
                 let real = crate::util::hex(&raws[i]);
                 if a.split(' ').next().unwrap_or("") != real || !a.ends_with(" inverse") {
-                    ctx.rep.violation("model", "correspondence: encoder-rows/replay", &format!("image {}: encodeRowsImpl (model) differs from the scanline stream the encoder wrote", i), s.json());
+                    ctx.rep.violation("model", "encoder-rows/replay", &format!("image {}: encodeRowsImpl (model) differs from the scanline stream the encoder wrote", i), s.json());
                 }
             }
         }
